@@ -3,6 +3,9 @@ CONSTANTS NB = 2
  MaxCrash = 2
  RepairTornTail = TRUE
  RepairAtomicContext = FALSE
+ MaxEdge = 0
+ ScanStride = "align"
+ CaskAdvance = "align"
  RepairScanPromotes = TRUE
 INVARIANTS Opens
 CHECK_DEADLOCK FALSE
